@@ -1084,6 +1084,9 @@ YR_API char* yr_compiler_get_error_message(
         "invalid value in condition: \"%s\"",
         compiler->last_error_extra_info);
     break;
+  case ERROR_INVALID_OPERAND:
+    snprintf(buffer, buffer_size, "invalid operand (negative shift count)");
+    break;
   }
 
   return buffer;
